@@ -55,9 +55,9 @@ func doInject(r row, p *chanpair.Pair, sl *srvLoop, dir, class string, frames []
 	verdict := func(n int, derr string, delivered []byte) {
 		switch {
 		case derr != "":
-			vfgo.Violation(c, class, "reference-chunks-rejected", fmt.Sprintf("body %d in %d chunks built by the reference codec: %s", r.N, n, derr))
+			violation(c, class, "reference-chunks-rejected", fmt.Sprintf("body %d in %d chunks built by the reference codec: %s", r.N, n, derr))
 		case !bytes.Equal(delivered, sent):
-			vfgo.Violation(c, class, "reference-chunks-delivered-differently", fmt.Sprintf("body %d: payload %d bytes, delivered %d bytes, first difference at %d", r.N, len(sent), len(delivered), firstDiff(sent, delivered)))
+			violation(c, class, "reference-chunks-delivered-differently", fmt.Sprintf("body %d: payload %d bytes, delivered %d bytes, first difference at %d", r.N, len(sent), len(delivered), firstDiff(sent, delivered)))
 		default:
 			vfgo.OK(c, class, map[string]any{"chunks": n})
 		}
